@@ -15,7 +15,8 @@ from ..model import FunctionInfo, AnalysisError, dotted
 from ..report import Ctx
 from ..tensor import Typer, MASKS, kwarg_t, const_int
 from ..util import norm, fn_body_nodes, walk_local, kwarg
-from .common import arg_permutation_rule, names_in, calls_named
+from ..pat import Snips
+from .common import arg_permutation_rule, names_in, calls_named, converged_from_counter
 
 EXPLANATION = (
     "Bellman-form analysis of the three planners on the expression DAG of their results (interprocedurally inlined): "
@@ -460,14 +461,19 @@ def pi_batched(ctx: Ctx, typer: Typer, seen: set):
 def vi_dict(ctx: Ctx):
     P = ctx.P
     f = P.fn("value_iteration_tabular")
+    mdp = f.positional_params[0]
     cfg = cfg_of(f)
     who = "VI-dict"
+    S = Snips(f)
     acc = [n for n in fn_body_nodes(f) if isinstance(n, ast.AugAssign) and isinstance(n.target, ast.Subscript)
            and isinstance(n.target.value, ast.Subscript)]
     if not acc:
         ctx.violation("DICT-1", f, f.node, f"{who}: Bellman accumulation", "no accumulation into action_values[s][a]")
         return
     a = acc[0]
+    rets = [n for n in fn_body_nodes(f) if isinstance(n, ast.Return) and isinstance(n.value, ast.Tuple) and len(n.value.elts) == 3]
+    vname = ast.unparse(rets[-1].value.elts[0]) if rets else None
+    qname = ast.unparse(rets[-1].value.elts[1]) if rets else None
     p = alg.normalise(a.value)
     probs = [n for n in fn_body_nodes(f) if isinstance(n, ast.For) and isinstance(n.iter, ast.Call) and "next_state_dist" in ast.unparse(n.iter)
              and any(a is x for x in ast.walk(n))]
@@ -477,13 +483,14 @@ def vi_dict(ctx: Ctx):
         nsv, pv = [e.id for e in probs[0].target.elts]
         call = probs[0].iter.func.value
         sa = [ast.unparse(x) for x in call.args]
-        want = {tuple(sorted(((pv, 1), (f"mdp.reward({sa[0]}, {sa[1]}, {nsv})", 1)))): Fraction(1),
-                tuple(sorted(((pv, 1), ("mdp.discount_rate", 1), (f"state_values[{nsv}]", 1)))): Fraction(1)}
+        want = {tuple(sorted(((pv, 1), (f"{mdp}.reward({sa[0]}, {sa[1]}, {nsv})", 1)))): Fraction(1),
+                tuple(sorted(((pv, 1), (f"{mdp}.discount_rate", 1), (f"{vname}[{nsv}]", 1)))): Fraction(1)}
         ok = p == want
         tgt = [ast.unparse(a.target.value.slice), ast.unparse(a.target.slice)]
-        ctx.check(tgt == sa, "DICT-1", f, a, f"{who}: accumulates into action_values[s][a] of the (s, a) whose successors are enumerated", "", f"accumulates into {tgt} while enumerating successors of {sa}")
+        ctx.check(tgt == sa and ast.unparse(a.target.value.value) == qname, "DICT-1", f, a, f"{who}: accumulates into the returned action values at [s][a] of the (s, a) whose successors are enumerated", "",
+                  f"accumulates into {ast.unparse(a.target.value.value)}{tgt} while enumerating successors of {sa}")
     ctx.check(ok, "DICT-1", f, a, f"{who}: increment = p*reward(s,a,ns) + p*gamma*V[ns]", detail,
-              f"the accumulated term normalises to `{detail}`, not to p*reward(s,a,ns) + p*gamma*V[ns]")
+              f"the accumulated term normalises to `{detail}`, not to p*reward(s,a,ns) + p*gamma*V[ns] with V the returned state values")
     # guard: absorbing or cannot-reach states are skipped before accumulation
     node = cfg.node_for(a)
     guard = None
@@ -514,13 +521,15 @@ def vi_dict(ctx: Ctx):
     fa = [n for n in fn_body_nodes(f) if isinstance(n, ast.For) and isinstance(n.iter, ast.Call) and ast.unparse(n.iter.func).endswith(".actions")]
     ctx.check(bool(fa), "DICT-3", f, fa[0] if fa else f.node, f"{who}: backs up only mdp.actions(s)", "", "actions are not taken from mdp.actions(s)")
     # residual rule
-    res = [n for n in fn_body_nodes(f) if isinstance(n, ast.Assign) and isinstance(n.value, ast.Call) and isinstance(n.value.func, ast.Name)
-           and n.value.func.id == "max" and any(isinstance(x, ast.Call) and isinstance(x.func, ast.Name) and x.func.id == "abs" for x in ast.walk(n.value))]
+    roles = {"V": vname, "Q": qname}
+    res = S.find("residual = max(residual, abs(V[s] - new_value))", roles) or S.find("residual = max(residual, abs(new_value - V[s]))", roles)
     brk = [n for n in fn_body_nodes(f) if isinstance(n, ast.If) and any(isinstance(b, ast.Break) for b in n.body)]
-    if res and brk:
-        rv = res[0].targets[0].id
-        ok = rv in names_in(res[0].value) and "state_values" in ast.unparse(res[0].value) and "new_value" in ast.unparse(res[0].value)
-        ctx.check(ok, "DICT-4", f, res[0], f"{who}: residual = max |V_old - V_new|", "", "residual is not the running maximum of |old - new|")
+    anyres = [n for n in fn_body_nodes(f) if isinstance(n, ast.Assign) and isinstance(n.value, ast.Call) and isinstance(n.value.func, ast.Name)
+              and n.value.func.id == "max" and any(isinstance(x, ast.Call) and isinstance(x.func, ast.Name) and x.func.id == "abs" for x in ast.walk(n.value))]
+    if anyres and brk:
+        ctx.check(bool(res), "DICT-4", f, anyres[0], f"{who}: residual = max |V_old - V_new|", "", "residual is not the running maximum of |old - new| of the returned state values")
+        e = res[0][1] if res else {}
+        rv = e.get("residual") or anyres[0].targets[0].id
         t = brk[0].test
         ok = isinstance(t, ast.Compare) and isinstance(t.ops[0], ast.Lt) and ast.unparse(t.left) == rv and ast.unparse(t.comparators[0]) == "max_residual"
         ctx.check(ok, "DICT-4", f, brk[0], f"{who}: stops when residual < max_residual", "", f"stop test is `{norm(t)}`")
@@ -530,13 +539,16 @@ def vi_dict(ctx: Ctx):
         ctx.check(ok, "DICT-4", f, zero[0] if zero else f.node, f"{who}: residual reset each sweep", "", "the residual is not reset at the start of each sweep")
         ok = bool(inloop) and ast.unparse(inloop[0].iter.args[0]) == "max_iterations"
         ctx.check(ok, "DICT-4", f, inloop[0] if inloop else f.node, f"{who}: sweep cap is max_iterations", "", "sweep cap is not max_iterations")
-        nv = [n for n in fn_body_nodes(f) if isinstance(n, ast.Assign) and ast.unparse(n.targets[0]) == "new_value" and isinstance(n.value, ast.Call)]
-        ok = any(ast.unparse(x.value).startswith("max(action_values[") for x in nv)
-        ctx.check(ok, "DICT-4", f, nv[0] if nv else f.node, f"{who}: new value = max over the state's action values", "", "new state value is not the max of its action values")
+        if res:
+            nv = S.find("new_value = max(Q[s].values())", {**roles, "new_value": e["new_value"], "s": e["s"]})
+            st = S.find("V[s] = new_value", {**roles, "new_value": e["new_value"], "s": e["s"]})
+            ctx.check(bool(nv) and bool(st), "DICT-4", f, nv[0][0] if nv else anyres[0], f"{who}: new value = max over the state's action values, stored back", "", "new state value is not the max of its action values (or is not stored)")
     else:
         ctx.unknown("DICT-4", f, f.node, f"{who}: residual rule", "idiom not recognised")
     # wrapper
     w = P.method("ValueIteration", "_dict_plan_on")
+    wm = w.positional_params[1]
+    SW = Snips(w)
     src = ast.unparse(w.node)
     call = calls_named(w, "value_iteration_tabular")
     ok = bool(call) and kwarg(call[0], "max_residual") is not None and ast.unparse(kwarg(call[0], "max_residual")) == "self.max_residual" \
@@ -544,16 +556,18 @@ def vi_dict(ctx: Ctx):
     ctx.check(ok, "DICT-5", w, call[0] if call else w.node, f"{who}: configured residual and cap are forwarded", "", "the configured max_residual / max_iterations do not reach the dict solver")
     ok = "self.undefined_value" in src and "_unable_to_reach_absorbing" in src
     ctx.check(ok, "DICT-5", w, w.node, f"{who}: placeholder for cannot-reach states", "", "placeholder handling missing")
-    comps = [n for n in ast.walk(w.node) if isinstance(n, ast.ListComp) and "isclose" in ast.unparse(n)]
-    ok = bool(comps) and ast.unparse(comps[0].generators[0].iter) == "mdp.actions(s)" and "maxq" in ast.unparse(comps[0])
-    ctx.check(ok, "DICT-5", w, comps[0] if comps else w.node, f"{who}: greedy set = available actions whose value is close to the max", "", "greedy set is not drawn from mdp.actions(s) against the row maximum")
-    dd = [n for n in ast.walk(w.node) if isinstance(n, ast.DictComp) and "len(max_actions)" in ast.unparse(n)]
-    ctx.check(bool(dd), "DICT-5", w, dd[0] if dd else w.node, f"{who}: policy uniform over the greedy set", "", "policy is not uniform over the greedy set")
-    iv = [n for n in ast.walk(w.node) if isinstance(n, ast.keyword) and n.arg == "initial_value"]
-    ok = bool(iv) and ast.unparse(iv[0].value) == "sum([state_values[s] * p for s, p in mdp.initial_state_dist().items()])"
+    unp = [n for n in fn_body_nodes(w) if isinstance(n, ast.Assign) and call and n.value is call[0] and isinstance(n.targets[0], ast.Tuple) and len(n.targets[0].elts) == 3]
+    svn, avn, itn = [ast.unparse(e_) for e_ in unp[0].targets[0].elts] if unp else (None, None, None)
+    g = SW.solve([f"maxq = max(av[s].values())", f"max_actions = [a for a in {wm}.actions(s) if np.isclose(av[s][a], maxq)]"], {"av": avn}) if avn else None
+    ctx.check(g is not None, "DICT-5", w, g[1][1] if g else w.node, f"{who}: greedy set = available actions whose value is close to the max", "", "greedy set is not drawn from mdp.actions(s) against the row maximum")
+    dd = SW.find("DictDistribution({a: 1 / len(max_actions) for a in max_actions})", {"max_actions": g[0]["max_actions"]} if g else None)
+    ctx.check(bool(dd), "DICT-5", w, dd[0][0] if dd else w.node, f"{who}: policy uniform over the greedy set", "", "policy is not uniform over the greedy set")
+    r = [n for n in fn_body_nodes(w) if isinstance(n, ast.Return) and isinstance(n.value, ast.Call)]
+    kws = {k.arg: k.value for k in r[0].value.keywords} if r else {}
+    svk = ast.unparse(kws["state_value"]) if "state_value" in kws else None
+    ok = "initial_value" in kws and SW.m(f"sum([sv[s] * p for s, p in {wm}.initial_state_dist().items()])", kws["initial_value"], {"sv": svk}) is not None
     ctx.check(ok if ok else None, "DICT-5", w, w.node, f"{who}: initial_value from the reported table", "", "idiom not recognised")
-    cv = [n for n in ast.walk(w.node) if isinstance(n, ast.keyword) and n.arg == "converged"]
-    ok = bool(cv) and ast.unparse(cv[0].value) == "iterations < self.max_iterations - 1"
+    ok = "converged" in kws and itn is not None and converged_from_counter(kws["converged"], itn, "self.max_iterations")
     ctx.check(ok if ok else None, "DICT-5", w, w.node, f"{who}: converged from the sweep counter", "", "idiom not recognised")
 
 
